@@ -23,7 +23,9 @@ type undoItem struct {
 func (h *Sources) Save() {
 	defer h.Reset()
 
-	if h.skip {
+	// Once the line is accepted it might have been written to the history
+	// sources: the position of the line in the history is not valid anymore.
+	if h.skip || h.accepted {
 		return
 	}
 
